@@ -181,6 +181,7 @@ def cmd_check(prop, tier, seed, only=None, jobs=None):
     violations = []
     known_hits = []
     undecided = []
+    in_known_regions = sum(1 for r, o in failures if match_finding(findings, prop, r["contract"], r["case"], o["name"]) is not None)
     rjobs, rmeta = [], []
     seen = set()
     for r, o in failures:
@@ -200,7 +201,9 @@ def cmd_check(prop, tier, seed, only=None, jobs=None):
     for r, o, cex in rmeta:
         fobj = match_finding(findings, prop, r["contract"], r["case"], o["name"])
         native = next(it) if cex is not None else None
-        confirmed = bool(native and native.get("clauses", {}).get(o["name"]) is False)
+        ncl = (native or {}).get("clauses", {})
+        base = o["name"].split("@")[0]
+        confirmed = bool(native and any(v is False for k, v in ncl.items() if k.split("@")[0] == base))
         rec = {"property": prop, "contract": r["contract"], "module": r["module"], "target": r["target"],
                "case": r["case_params"], "obligation": o["name"], "status": o["status"], "reason": o.get("reason"),
                "detail": o.get("detail"), "goal": o.get("goal"), "exc_trace": o.get("exc_trace"),
@@ -245,7 +248,7 @@ def cmd_check(prop, tier, seed, only=None, jobs=None):
     for r in ok_results:
         c = by_name[r["contract"]]
         role = None
-        if c.bounded_clauses:
+        if c.bounded_obligations(r["case_params"]):
             role = "stand-in"
         elif any(g["outcome"] in ("out-of-subset", "needs-contract", "path-limit") for g in r["generation_errors"]):
             role = "fallback"
@@ -266,7 +269,7 @@ def cmd_check(prop, tier, seed, only=None, jobs=None):
     for (r, role), st in zip(tb_meta, tb_res):
         c = by_name[r["contract"]]
         agg = tierb.setdefault((r["contract"], role), {"contract": r["contract"], "function": r["target"], "role": role,
-                                                        "clauses": sorted(c.bounded_clauses) if role == "stand-in" else "all clauses of the contract",
+                                                        "clauses": sorted(set(c.bounded_clauses) | set(c.bounded_obligations(r["case_params"]))) if role == "stand-in" else "all clauses of the contract",
                                                         "bound": {"max_array_length": maxlen, "alphabet_sizes": 5, "scalar_candidates": 9,
                                                                   "cap_per_case": cap_standin if role != "cross-check" else cap_xcheck},
                                                         "cases": 0, "evaluations": 0, "rejected_by_requires": 0,
@@ -356,7 +359,10 @@ def cmd_check(prop, tier, seed, only=None, jobs=None):
         "property_id": prop, "tier": tier, "seed": seed, "level": level, "wall_s": round(wall, 2),
         "violations": len(violations),
         "coverage": {
-            "obligations": obligations, "discharged": discharged,
+            # obligations that lie (provably) inside a recorded open finding's region are decided -- violated and recorded --
+            # and are reported apart; `obligations` / `discharged` count everything outside those regions
+            "obligations": obligations - in_known_regions, "discharged": discharged,
+            "obligations_in_known_finding_regions": in_known_regions,
             "checker_cmd": "python3-vt -m dverif check %s --tier %s" % (prop, tier),
             "trusted_base": sorted("numpy contract: " + x for x in lib) + list(entry.get("trusted", [])),
             "explanation": entry.get("explanation", ""),
